@@ -19,9 +19,12 @@
    policy.  Packets carry a ghost provenance tag.
 
    Two booleans of [config] select the code variant:
-     cf_fix_conn  the check "if (query->conn != conn) drop" exists   (fixes/C05-conn-check.patch)
+     cf_fix_conn  the check "if (query->conn != conn) drop" exists   (/repo ba01df8, found with C06)
      cf_fix_qr    the check "QR bit must be set" exists              (fixes/C05-qr-check.patch)
-   With both false the model is the pinned tree. *)
+     cf_fix_zerolen  ares_socket_recvfrom stores 0 in *read_bytes for an empty UDP datagram
+                  (/repo 00b9f6e, found with C20); without it read_conn_packets uses an
+                  uninitialised length: undefined behaviour
+   With all three false the model is the pinned tree. *)
 From Coq Require Import ZArith List Bool Lia.
 From CAres.Base Require Import Outcome CInt.
 From CAres.Gen Require Import Consts LeafFns.
@@ -90,7 +93,7 @@ Record config := mkCfg {
   cf_dns0x20 : bool; cf_igntc : bool; cf_nocheckresp : bool; cf_usevc : bool;
   cf_max_tries : Z;                      (* ares_slist_len(servers) * tries *)
   cf_qcache : bool; cf_qcache_max_ttl : Z;
-  cf_fix_conn : bool; cf_fix_qr : bool }.
+  cf_fix_conn : bool; cf_fix_qr : bool; cf_fix_zerolen : bool }.
 
 Inductive output :=
 | OCallback (tok status : Z) (data : option Z)   (* data = tag of the record handed over *)
@@ -336,9 +339,12 @@ Fixpoint requeue_all (cfg : config) (st : chan) (qs : list query) (status : Z)
       (st2, o1 ++ o2)
   end.
 
+(* (the C code unlinks the connection first and frees it last; for the queries the order is
+   immaterial because the re-send itself is an input event that comes afterwards) *)
 Definition close_connection (cfg : config) (st : chan) (c : Z) (status : Z) : chan * list output :=
-  let st0 := set_conns st (filter (fun cn => negb (cn_id cn =? c)) (ch_conns st)) in
-  requeue_all cfg st0 (filter (fun q => opt_z_eqb (q_conn q) (Some c)) (ch_queries st)) status.
+  let '(st1, outs) :=
+    requeue_all cfg st (filter (fun q => opt_z_eqb (q_conn q) (Some c)) (ch_queries st)) status in
+  (set_conns st1 (filter (fun cn => negb (cn_id cn =? c)) (ch_conns st1)), outs).
 
 (* ------------------------------------------------------------------------------------- *)
 (* process_answer (src/lib/ares_process.c)                                                *)
@@ -529,6 +535,9 @@ Definition step (cfg : config) (st : chan) (e : event) : outcome (chan * list ou
           | Some sv =>
               (* ares_conn_read: a UDP datagram from another address is thrown away *)
               if negb (cn_tcp cn) && negb (src =? sv_addr sv) then Ok (st, [])
+              else if negb (cf_fix_zerolen cfg) && negb (cn_tcp cn) &&
+                      (match d with DEmpty => true | _ => false end)
+              then UB OutOfBounds       (* *read_bytes never written: length is uninitialised *)
               else
                 (* GHOST: remember the tag if the specification calls the packet authentic *)
                 let auth := match d with
@@ -564,10 +573,10 @@ Definition init_chan (servers : list server) : chan := mkChan [] [] servers [] [
 (* ------------------------------------------------------------------------------------- *)
 Definition fixed_cfg (dns0x20 igntc nocheckresp usevc : bool) (max_tries : Z) (qcache : bool)
            (max_ttl : Z) : config :=
-  mkCfg dns0x20 igntc nocheckresp usevc max_tries qcache max_ttl true true.
+  mkCfg dns0x20 igntc nocheckresp usevc max_tries qcache max_ttl true true true.
 Definition pinned_cfg (dns0x20 igntc nocheckresp usevc : bool) (max_tries : Z) (qcache : bool)
            (max_ttl : Z) : config :=
-  mkCfg dns0x20 igntc nocheckresp usevc max_tries qcache max_ttl false false.
+  mkCfg dns0x20 igntc nocheckresp usevc max_tries qcache max_ttl false false false.
 
 (* the provenance monitor: is there a live query for which this packet is authentic, and
    which one (token) *)
